@@ -563,14 +563,30 @@ def destroyLoop (s : Store) (l : LH) : R Unit :=
 /-- cif_loop_get_category: the handle's copy, the database is not consulted -/
 def getCategory (l : LH) : Option Str := l.category
 
-/-- cif_loop_set_category; delivers the handle as the call leaves it.
-    NOTE: `category == NULL` skips the reserved-category test — the scalar loop's category can be taken away that way. -/
+/-- the reserved-category tests of cif_loop_set_category (since fix 95b7b25 also for `category == NULL`) -/
 def catReserved (l : LH) : Option Str → Bool
+  | none => l.category == some []
+  | some c => c.isEmpty || l.category == some []
+
+/-- the tests as they were before fix 95b7b25 (finding F34): `category == NULL` skipped them -/
+def catReservedPinned (l : LH) : Option Str → Bool
   | none => false
   | some c => c.isEmpty || l.category == some []
 
+/-- cif_loop_set_category; delivers the handle as the call leaves it. -/
 def setCategory (s : Store) (l : LH) (cat : Option Str) : Store × LH × Except Code Unit :=
   if catReserved l cat then (s, l, .error CIF_RESERVED_LOOP)
+  else match s.db.setCategory l.cid l.loopNum cat with
+    | .error _ => (s, l, .error CIF_ERROR)
+    | .ok (d1, n) =>
+      let l' := { l with category := cat }
+      if n == 0 then ({ s with db := d1 }, l', .error CIF_INVALID_HANDLE)
+      else if n == 1 then ({ s with db := d1 }, l', .ok ())
+      else ({ s with db := d1 }, l', .error CIF_INTERNAL_ERROR)
+
+/-- cif_loop_set_category before fix 95b7b25 (kept for the counterexample theorem `C04_cex_F34_pinned`) -/
+def setCategoryPinned (s : Store) (l : LH) (cat : Option Str) : Store × LH × Except Code Unit :=
+  if catReservedPinned l cat then (s, l, .error CIF_RESERVED_LOOP)
   else match s.db.setCategory l.cid l.loopNum cat with
     | .error _ => (s, l, .error CIF_ERROR)
     | .ok (d1, n) =>
